@@ -2,6 +2,7 @@ package checks
 
 import (
 	"bytes"
+	"encoding/binary"
 	"fmt"
 	"math"
 	"math/rand/v2"
@@ -57,9 +58,163 @@ func c13Mismatch(run *mon.Run, alg, how string, input []byte, got, want []byte, 
 	run.Violate(fmt.Sprintf("C13:%s:%s", alg, how), fmt.Sprintf("%s via %s on %d bytes: got %x, reference %x", alg, how, len(input), got, want), rep)
 }
 
+// c13StructuredMessages: messages whose content is structured rather than random - all zero, all ones, one
+// non-zero byte or one non-zero 8-byte lane at every position, alternating zero / non-zero lanes, zero
+// blocks next to random blocks, small big-endian integers, lanes with a zero half, equal lanes (which
+// cancel under xor) - through every way of hashing. Content-dependent shortcuts in the absorbing code
+// (skipping zero words, comparing lanes) never trigger on random bytes.
+func c13StructuredMessages(run *mon.Run) {
+	r := run.Rand("structured-messages")
+	for _, a := range hashAlgs {
+		type sm struct {
+			kind string
+			m    []byte
+		}
+		var msgs []sm
+		add := func(kind string, m []byte) { msgs = append(msgs, sm{kind, m}) }
+		span := 2*a.rate + 16
+		for _, l := range []int{1, 8, 32, 64, a.rate - 8, a.rate - 1, a.rate, a.rate + 1, a.rate + 8, 2 * a.rate, span, 3*a.rate + 5} {
+			add("zeros", make([]byte, l))
+			add("ones", bytes.Repeat([]byte{0xff}, l))
+			m := make([]byte, l)
+			for i := range m {
+				m[i] = byte(i)
+			}
+			add("position-bytes", m)
+			lane := mon.RandBytes(r, 8)
+			add("equal-lanes", bytes.Repeat(lane, l/8+1)[:l])
+		}
+		for p := 0; p < span; p++ {
+			m := make([]byte, span)
+			m[p] = []byte{0x01, 0x80, 0xff}[p%3]
+			add("one-byte", m)
+			if p%5 == 0 {
+				add("one-byte-short", m[:p+1]) // the non-zero byte is the last one
+			}
+		}
+		for l := 0; l*8+8 <= span; l++ {
+			m := make([]byte, span)
+			copy(m[l*8:], mon.RandBytes(r, 8))
+			add("one-lane", m)
+			m2 := make([]byte, span)
+			copy(m2[l*8:], mon.RandBytes(r, 16)) // two neighbouring lanes
+			add("two-lanes", m2)
+			m3 := mon.RandBytes(r, span)
+			copy(m3[l*8:l*8+8], make([]byte, 8))
+			add("one-zero-lane", m3)
+		}
+		for period := 2; period <= 5; period++ {
+			for phase := 0; phase < period; phase++ {
+				m := mon.RandBytes(r, span)
+				for l := 0; l*8+8 <= span; l++ {
+					if l%period != phase {
+						copy(m[l*8:l*8+8], make([]byte, 8))
+					}
+				}
+				add("periodic-lanes", m)
+				inv := mon.RandBytes(r, span)
+				for l := 0; l*8+8 <= span; l++ {
+					if l%period == phase {
+						copy(inv[l*8:l*8+8], make([]byte, 8))
+					}
+				}
+				add("periodic-zero-lanes", inv)
+			}
+		}
+		for _, half := range []int{0, 4} {
+			m := mon.RandBytes(r, span)
+			for l := 0; l*8+8 <= span; l++ {
+				copy(m[l*8+half:l*8+half+4], make([]byte, 4))
+			}
+			add("half-zero-lanes", m)
+		}
+		add("zero-block-then-random", append(make([]byte, a.rate), mon.RandBytes(r, a.rate)...))
+		add("random-block-then-zero", append(mon.RandBytes(r, a.rate), make([]byte, a.rate)...))
+		for _, v := range []uint64{0, 1, 2, 255, 256, 65535, 1 << 32, 1<<64 - 1} {
+			for _, l := range []int{8, 16, 32, 64} {
+				m := make([]byte, l)
+				binary.BigEndian.PutUint64(m[l-8:], v)
+				add("small-integer-be", m)
+				m = make([]byte, l)
+				binary.LittleEndian.PutUint64(m, v)
+				add("small-integer-le", m)
+			}
+		}
+		reused := a.mk()
+		for i, x := range msgs {
+			want := a.ref(x.m)
+			run.Eval(3)
+			if got := a.mk().ComputeHash(x.m); !bytes.Equal(got, want) {
+				c13Mismatch(run, a.name, "structured:"+x.kind+":ComputeHash", x.m, got, want, nil)
+			}
+			h := a.mk()
+			cut := 0
+			if len(x.m) > 0 {
+				cut = (i * 7) % (len(x.m) + 1)
+			}
+			_, _ = h.Write(alignedCopy(x.m[:cut], i%8))
+			_, _ = h.Write(x.m[cut:])
+			if got := h.SumHash(); !bytes.Equal(got, want) {
+				c13Mismatch(run, a.name, "structured:"+x.kind+":Write-SumHash", x.m, got, want, map[string]any{"cut": cut})
+			}
+			if got := reused.ComputeHash(x.m); !bytes.Equal(got, want) {
+				c13Mismatch(run, a.name, "structured:"+x.kind+":reused-ComputeHash", x.m, got, want, nil)
+			}
+			if a.name == "sha3-256" {
+				var o hash.Hash
+				o = make([]byte, 32)
+				hash.ComputeSHA3_256((*[32]byte)(o), x.m)
+				if !bytes.Equal(o, want) {
+					c13Mismatch(run, a.name, "structured:"+x.kind+":ComputeSHA3_256", x.m, o, want, nil)
+				}
+			}
+			run.Shape("structured|" + a.name + "|" + x.kind)
+		}
+		run.Count("structured."+a.name, len(msgs))
+	}
+	// KMAC128: the same kinds of content as key, customizer and message
+	for i := 0; i < 60; i++ {
+		key, cust, msg := make([]byte, 16+8*(i%20)), make([]byte, (i%7)*8), make([]byte, 168+8*(i%9))
+		switch i % 4 {
+		case 0: // all zero
+		case 1:
+			key[(i*5)%len(key)] = 0x80
+			msg[(i*11)%len(msg)] = 1
+		case 2:
+			copy(key[8*(i%2):], mon.RandBytes(r, 8))
+			copy(msg[8*(i%21):], mon.RandBytes(r, 8))
+			if len(cust) >= 16 {
+				copy(cust[8:], mon.RandBytes(r, 8))
+			}
+		case 3:
+			for l := 0; l*8+8 <= len(msg); l += 2 {
+				copy(msg[l*8+8*(i%2):], mon.RandBytes(r, 8)[:min(8, len(msg)-l*8-8*(i%2))])
+			}
+		}
+		h, err := hash.NewKMAC_128(key, cust, 32+i)
+		if err != nil {
+			run.Violate("C13:kmac:constructor-refuses-valid", err.Error(), nil)
+			continue
+		}
+		want := ref.KMAC128(key, msg, 32+i, cust)
+		run.Eval(2)
+		rep := map[string]any{"key": mon.Hex(key), "customizer": mon.Hex(cust), "msg": mon.Hex(msg), "size": 32 + i}
+		if got := h.ComputeHash(msg); !bytes.Equal(got, want) {
+			run.Violate("C13:kmac:structured:ComputeHash", fmt.Sprintf("KMAC128 of sparse key / customizer / message (case %d): got %x, SP 800-185 gives %x", i, []byte(got), want), rep)
+		}
+		_, _ = h.Write(msg[:i])
+		_, _ = h.Write(msg[i:])
+		if got := h.SumHash(); !bytes.Equal(got, want) {
+			run.Violate("C13:kmac:structured:Write-SumHash", fmt.Sprintf("KMAC128 of sparse key / customizer / message (case %d) via Write/SumHash: got %x, SP 800-185 gives %x", i, []byte(got), want), rep)
+		}
+		run.Shape("structured|kmac")
+	}
+}
+
 // c13Core is the body run in every build configuration.
 func c13Core(run *mon.Run) {
 	c13KMACRelated(run)
+	c13StructuredMessages(run)
 	var wg sync.WaitGroup
 	sem := make(chan struct{}, 16)
 	for _, a := range hashAlgs {
@@ -490,7 +645,54 @@ func c13KMACRelated(run *mon.Run) {
 	}
 }
 
+// c13KMACEncodingBoundaries: key, customizer and output lengths at which the byte length of an SP 800-185
+// left_encode / right_encode of the bit length changes (2^8, 2^16, 2^24 bits: 32, 8192 and 2097152 bytes).
+func c13KMACEncodingBoundaries(run *mon.Run) {
+	r := run.Rand("kmac-encoding-boundaries")
+	var lens []int
+	for _, b := range []int{32, 8192, 2097152} {
+		lens = append(lens, b-1, b, b+1)
+	}
+	type par struct{ kl, cl, size int }
+	var ps []par
+	for _, l := range lens {
+		ps = append(ps, par{16 + r.IntN(20), r.IntN(8), l}, par{l, r.IntN(8), 32}, par{16 + r.IntN(20), l, 64})
+	}
+	ps = append(ps, par{8192, 8192, 8192}, par{8193, 8191, 8192})
+	for _, p := range ps {
+		if p.kl < 16 {
+			p.kl = 16
+		}
+		key, cust := mon.RandBytes(r, p.kl), mon.RandBytes(r, p.cl)
+		h, err := hash.NewKMAC_128(key, cust, p.size)
+		if err != nil {
+			run.Violate("C13:kmac:constructor-refuses-valid", fmt.Sprintf("key %d / customizer %d / size %d refused: %v", p.kl, p.cl, p.size, err), nil)
+			continue
+		}
+		for _, ml := range []int{0, 5, 168} {
+			msg := mon.RandBytes(r, ml)
+			want := ref.KMAC128(key, msg, p.size, cust)
+			run.Eval(2)
+			rep := map[string]any{"key_len": p.kl, "customizer_len": p.cl, "size": p.size, "msg": mon.Hex(msg), "key_head": mon.Hex(key[:16]), "customizer_head": mon.Hex(cust[:min(16, len(cust))])}
+			if got := h.ComputeHash(msg); !bytes.Equal(got, want) {
+				run.Violate("C13:kmac:ComputeHash", fmt.Sprintf("KMAC128 key length %d, customizer length %d, output %d, message length %d: result differs from SP 800-185 (first bytes %x, expected %x)", p.kl, p.cl, p.size, ml, []byte(got)[:min(16, len(got))], want[:min(16, len(want))]), rep)
+				break
+			}
+			h.Reset()
+			_, _ = h.Write(msg)
+			if got := h.SumHash(); !bytes.Equal(got, want) {
+				run.Violate("C13:kmac:Write-SumHash", fmt.Sprintf("KMAC128 key length %d, customizer length %d, output %d via Write/SumHash differs from SP 800-185", p.kl, p.cl, p.size), rep)
+				break
+			}
+			h.Reset()
+		}
+		run.Count("kmac.encoding-boundaries", 1)
+		run.Shape(fmt.Sprintf("kmac|boundary|k%d|c%d|o%d", p.kl, p.cl, p.size))
+	}
+}
+
 func c13KMAC(run *mon.Run) {
+	c13KMACEncodingBoundaries(run)
 	var wg sync.WaitGroup
 	sem := make(chan struct{}, 16)
 	// every key length 16..400 (so that any bytepad boundary is included without naming it)
